@@ -11,7 +11,7 @@
 #include <exception>
 #include <unistd.h>
 
-static FILE* vh_out = stdout;
+static thread_local FILE* vh_out = stdout;      // per thread, so that concurrent executors can write to their own buffers
 // 32-bit word as two 16-bit halves (TLC integers are 32-bit signed)
 static inline void vh_w(const char* k, uint32_t v) { fprintf(vh_out, "\"%s\":{\"h\":%u,\"l\":%u}", k, v >> 16, v & 0xffff); }
 static inline void vh_i(const char* k, long v) { fprintf(vh_out, "\"%s\":%ld", k, v); }
